@@ -13,10 +13,11 @@ from fractions import Fraction
 from harness.framework import Stream, HarnessError
 
 PROPERTY = "C06"
-RULE = ("sample streams of 1-3 tasks x 1-4 clients (warm-up then normal samples, dyadic or arbitrary double times, clients lagging "
-        "behind each other) x cuttings into batches (all at once, one sample per call, random cuts with empty calls) + a final "
-        "far-future flush sample per task that makes the carried state observable; a case is non-trivial when at least one call "
-        "carries samples over; signature = (model branch tags, cutting mode, number of tasks, oracle outcome)")
+RULE = ("sample streams of 1-3 tasks x 1-4 clients (warm-up then normal samples, dyadic / integer / arbitrary double times, clients lagging "
+        "behind each other, optional equal-but-distinct Task objects) x 3 cuttings into calculate() calls on ONE calculator (all at once, one "
+        "sample per call, random cuts with empty calls) + a final far-future flush sample per task that makes the carried state observable "
+        "in the returned tuples; a case is non-trivial when at least one call starts with carried-over samples; signature = (model branch "
+        "tags, cutting mode, number of tasks, oracle outcome)")
 TRUSTED = [
     "IEEE-754 model RallyModel/Dbl.lean for `a - b` and `count / interval` (validated bit-for-bit by the dbl stream of the framework)",
     "Python's `sorted(key=...)` is the stable sort (model: stable insertion sort; tied to the code by the stable_sort stream)",
@@ -101,28 +102,36 @@ def build_sample(s, copy):
     )
 
 
-def run_impl(case):
-    """returns (per call: list of [task key, list of canonical tuples]) and the model input"""
+# Resource guard.  Before /repo commit d4fc0e7 the calculator appended the carried-over samples a second time in every
+# call that finished no bucket (the defect this check found; class `carried-samples-recounted`), so its list doubled
+# with each such call in a row.  Should that regress, cases must stay feasible: the harness stops feeding a case after
+# STALE_CAP consecutive calls of one task that started with carried samples and emitted nothing (decided from the
+# returned tuples only; 2^10 is still cheap).
+STALE_CAP = 10
+
+
+def run_impl(ctx, case):
+    """feeds the calls one by one to one real calculator, evaluating the direct oracle after each call.
+    returns (canonical output per call, model input per call, oracle outcome class)"""
     from esrally.driver import driver
     from esrally import metrics
 
     calc = driver.ThroughputCalculator()
+    orc = Oracle(ctx, case)
     out_calls = []
     model_calls = []
-    raw_calls = []
     names = {}
-    for bi_call, call in enumerate(case["calls"]):
-        objs = [build_sample(s, case.get("copies", False) and (i + bi_call) % 2 == 1) for i, s in enumerate(call)]
+    for ci, call in enumerate(case["calls"]):
+        objs = [build_sample(s, case.get("copies", False) and (i + ci) % 2 == 1) for i, s in enumerate(call)]
         for s, o in zip(call, objs):
             names[o.task.name] = s["task"]
-        model_calls.append(
-            [
-                {"task": s["task"], "abs": fs(o.absolute_time), "rel": fs(o.relative_time), "period": fs(o.time_period), "ops": o.total_ops,
-                 "unit": o.total_ops_unit, "normal": o.sample_type == metrics.SampleType.Normal,
-                 "tput": None if o.throughput is None else fs(o.throughput)}
-                for s, o in zip(call, objs)
-            ]
-        )
+        model_call = [
+            {"task": s["task"], "abs": fs(o.absolute_time), "rel": fs(o.relative_time), "period": fs(o.time_period), "ops": o.total_ops,
+             "unit": o.total_ops_unit, "normal": o.sample_type == metrics.SampleType.Normal,
+             "tput": None if o.throughput is None else fs(o.throughput)}
+            for s, o in zip(call, objs)
+        ]
+        model_calls.append(model_call)
         if case["bi"] == 1:
             res = calc.calculate(objs)
         else:
@@ -130,18 +139,18 @@ def run_impl(case):
         if not isinstance(res, dict):
             raise HarnessError("calculate did not return a dict")
         canon = []
-        raw = {}
         for task, tuples in res.items():
-            k = names[task.name]
             lst = []
             for t in tuples:
                 a, r, st, v, u = t
                 lst.append([fs(a), fs(r), st == metrics.SampleType.Normal, canon_value(v), u])
-            canon.append([k, lst])
-            raw[k] = list(tuples)
+            canon.append([names[task.name], lst])
         out_calls.append(canon)
-        raw_calls.append(raw)
-    return out_calls, model_calls, raw_calls
+        orc.step(ci, model_call, canon)
+        if orc.stale_run() >= STALE_CAP and ci + 1 < len(case["calls"]):
+            ctx.count("truncated-after-stale-run")
+            break
+    return out_calls, model_calls, orc.outcome
 
 
 # ---------------------------------------------------------------------------------------------
@@ -153,28 +162,34 @@ def ulp_of(x):
     return Fraction(math.ulp(float(abs(x)))) if x != 0 else Fraction(0)
 
 
-def oracle(ctx, case, model_calls, impl_calls):
-    """model_calls: the exact attribute values of the real Sample objects; impl_calls: canonical output of the real code.
-    returns outcome class string"""
-    exact = case.get("exact", True)
-    by_task = {}
-    outcome = "ok"
+class Oracle:
+    """reference counting per task, driven by the exact attribute values of the real Sample objects (`call`) and the
+    canonical tuples the real code returned for that call (`outs`)"""
 
-    def fail(cls, what, exp, obs):
-        nonlocal outcome
-        outcome = cls
-        ctx.fail(cls, what, exp, obs)
+    def __init__(self, ctx, case):
+        self.ctx = ctx
+        self.exact = case.get("exact", True)
+        self.by_task = {}
+        self.outcome = "ok"
 
-    for ci, (call, outs) in enumerate(zip(model_calls, impl_calls)):
+    def fail(self, cls, what, exp, obs):
+        self.outcome = cls
+        self.ctx.fail(cls, what, exp, obs)
+
+    def stale_run(self):
+        return max([st["stale_run"] for st in self.by_task.values()] + [0])
+
+    def step(self, ci, call, outs):
+        ctx, exact, fail = self.ctx, self.exact, self.fail
         groups = {}
         for s in call:
             groups.setdefault(s["task"], []).append(s)
         got = {k: v for k, v in outs}
         if list(groups.keys()) != [k for k, _ in outs]:
             fail("task-keys", f"call {ci}: returned tasks differ from the tasks that have samples in the call", list(groups.keys()), [k for k, _ in outs])
-            continue
+            return
         for k, batch in groups.items():
-            st = by_task.setdefault(k, {"fed": [], "pending": [], "start": None, "types": [], "stale": False, "mode": None})
+            st = self.by_task.setdefault(k, {"fed": [], "pending": [], "counted": [], "start": None, "types": [], "stale": False, "stale_run": 0, "mode": None})
             tuples = got[k]
             modes = {s["tput"] is None for s in batch}
             mode = "calc" if modes == {True} else ("pass" if modes == {False} else "mixed")
@@ -183,6 +198,8 @@ def oracle(ctx, case, model_calls, impl_calls):
             elif st["mode"] != mode:
                 st["mode"] = "mixed"
             if st["mode"] == "mixed":
+                if not tuples:
+                    st["stale_run"] += 1  # resource guard only (never reset: a cleared list cannot be told from outside)
                 continue  # outside the property's domain (ASSUMPTIONS)
             merged = sorted(batch + st["pending"], key=lambda s: Fraction(s["abs"]))
             if st["mode"] == "pass":
@@ -196,7 +213,7 @@ def oracle(ctx, case, model_calls, impl_calls):
                 # start_time = first.absolute_time - first.time_period (a double subtraction in the code)
                 st["start"] = a - p if exact else Fraction(float(a) - float(p))
             start = st["start"]
-            counted = list(st["counted"]) if "counted" in st else []
+            counted = st["counted"]
             had_pending = bool(st["pending"])
             pos = 0
             last_j = -1
@@ -206,7 +223,7 @@ def oracle(ctx, case, model_calls, impl_calls):
                 if not cand:
                     fail("unknown-emitter", f"call {ci} task {k}: value attributed to no sample of the call (or out of time order)", None, t)
                     break
-                if len([j for j in range(len(merged)) if merged[j]["abs"] == a and merged[j]["rel"] == r]) > 1:
+                if len(cand) > 1:
                     ctx.count("oracle:ambiguous-emitter")
                 j = cand[0]
                 pos = j + 1
@@ -214,6 +231,7 @@ def oracle(ctx, case, model_calls, impl_calls):
                 P = counted + merged[: j + 1]
                 n = sum(s["ops"] for s in P)
                 iv = max(Fraction(s["abs"]) - start for s in P)
+                st["types"].append(normal)
                 if v is None:
                     fail("none-value", f"call {ci} task {k}: calculated throughput is None", None, t)
                     continue
@@ -230,9 +248,9 @@ def oracle(ctx, case, model_calls, impl_calls):
                     # int -> float conversion of the count rounds once more
                     good = abs(vf - want) <= want / 2 ** 50
                 elif exact:
-                    good = vf == Fraction(float(want)) if want < Fraction(2) ** 1000 else True
+                    good = vf == Fraction(float(want))
                 else:
-                    # elapsed time is computed in doubles: |error| <= 2 ulp of the largest time involved
+                    # elapsed time is computed in doubles: |error| <= a few ulp of the largest time involved
                     err = 4 * max(ulp_of(Fraction(s["abs"])) for s in P) + 4 * ulp_of(start)
                     if iv <= 8 * err:
                         ctx.count("oracle:ill-conditioned-skipped")
@@ -241,19 +259,20 @@ def oracle(ctx, case, model_calls, impl_calls):
                         lo, hi = Fraction(n) / (iv + err), Fraction(n) / (iv - err)
                         good = lo * (1 - Fraction(1, 2 ** 50)) <= vf <= hi * (1 + Fraction(1, 2 ** 50))
                 if not good:
-                    cls = "carried-samples-recounted" if st["stale"] else "rate-mismatch"
+                    # over-count after a call that started with carried samples and emitted nothing = the defect fixed by d4fc0e7
+                    cls = "carried-samples-recounted" if st["stale"] and vf > want else "rate-mismatch"
                     fail(cls, f"call {ci} task {k}: emitted throughput is not (operations of the samples up to the emitting one, each once) / elapsed",
-                         {"ops": n, "elapsed": fs(iv), "value": fs(Fraction(float(want))) if want < Fraction(2) ** 1000 else "huge"}, {"value": v, "tuple": t})
-                st["types"].append(normal)
+                         {"ops": n, "elapsed": fs(iv), "value": fs(Fraction(float(want)))}, {"value": v, "tuple": t})
             # bookkeeping of the reference counting
-            if tuples and last_j >= 0:
+            if last_j >= 0:
                 st["counted"] = counted + merged[: last_j + 1]
                 st["pending"] = merged[last_j + 1:]
+                st["stale_run"] = 0
             else:
-                st["counted"] = counted
                 st["pending"] = merged
                 if had_pending:
                     st["stale"] = True  # a call that started with carried samples and emitted nothing
+                    st["stale_run"] += 1
             st["fed"] += batch
             # sample types never go back to warm-up
             ty = st["types"]
@@ -263,7 +282,6 @@ def oracle(ctx, case, model_calls, impl_calls):
             if any(s["normal"] for s in st["fed"]) and any(Fraction(s["abs"]) > start for s in st["fed"]):
                 if not any(ty):
                     fail("no-normal-value", f"call {ci} task {k}: normal samples and positive elapsed time but no normal-type throughput value", "some", ty)
-    return outcome
 
 
 # ---------------------------------------------------------------------------------------------
@@ -313,7 +331,7 @@ def gen_task_queues(rng, k, exact, mode, int_times, big_ops):
                 period = e
                 rs = ts + e + (Fraction(0) if int_times else Fraction(c, 1024))
             if int_times:
-                rs = ts + e * 8 + c  # unique relative time per sample of a task
+                rs = ts + 8 * i + c  # unique relative time per sample of a task
             ops = rng.choice(OPS)
             if big_ops and rng.random() < 0.3:
                 ops = rng.choice([2 ** 53 + 1, 2 ** 54 + 3, 2 ** 60 + 12345])
@@ -374,7 +392,7 @@ def flush_samples(rng, stream, tmax, int_times):
     for k, s in seen.items():
         f = dict(s)
         a = tmax + 64 + k
-        f.update({"abs": fs(a), "rs": fs(Fraction(s["ts"]) + 100000 + k), "period": fs(Fraction(1000)), "ops": 1, "normal": True, "client": 99})
+        f.update({"abs": fs(a), "rs": fs(100000 + k), "ts": "0/1", "period": fs(Fraction(1000)), "ops": 1, "normal": True, "client": 99})
         if s["tput"] is not None:
             f["tput"] = fs(1)
         out.append(f)
@@ -490,7 +508,7 @@ def gen_boundary(ctx):
 # run
 # ---------------------------------------------------------------------------------------------
 def run_case(ctx, case):
-    impl_calls, model_calls, _raw = run_impl(case)
+    impl_calls, model_calls, outcome = run_impl(ctx, case)
     m = ctx.model("throughput", "run", {"bi": case["bi"], "calls": model_calls})
     if "r" not in m:
         raise HarnessError(f"model rejected the case: {m}")
@@ -503,7 +521,6 @@ def run_case(ctx, case):
                 break
         else:
             ctx.diff("number of calls", len(m["r"]["calls"]), len(impl_calls))
-    outcome = oracle(ctx, case, model_calls, impl_calls)
     ctx.count("cut:" + str(case.get("cut")))
     ctx.count("calls", len(case["calls"]))
     ctx.count("samples", sum(len(c) for c in case["calls"]))
@@ -527,10 +544,10 @@ def run_sort(ctx, case):
 
 
 STREAMS = [
-    Stream("boundary", gen_boundary, run_case, quick=400, thorough=4000, shards=2),
-    Stream("dyadic", gen_dyadic, run_case, quick=9000, thorough=600000, shards=16),
-    Stream("floats", gen_floats, run_case, quick=2400, thorough=100000, shards=8),
-    Stream("passthrough", gen_pass, run_case, quick=1200, thorough=30000, shards=4),
-    Stream("mixed_malformed", gen_mixed, run_case, quick=600, thorough=20000, shards=2),
-    Stream("stable_sort", gen_sort, run_sort, quick=500, thorough=20000, shards=1),
+    Stream("boundary", gen_boundary, run_case, quick=600, thorough=6000, shards=2),
+    Stream("dyadic", gen_dyadic, run_case, quick=24000, thorough=600000, shards=16),
+    Stream("floats", gen_floats, run_case, quick=6000, thorough=150000, shards=8),
+    Stream("passthrough", gen_pass, run_case, quick=3000, thorough=60000, shards=4),
+    Stream("mixed_malformed", gen_mixed, run_case, quick=1500, thorough=30000, shards=2),
+    Stream("stable_sort", gen_sort, run_sort, quick=1000, thorough=20000, shards=1),
 ]
